@@ -781,6 +781,73 @@ func setTransient(tx *pb.Transaction, key string, msgs interface{}) bool {
 	return true
 }
 
+// listEdit: the multiset mutations of a list that keep its length (or add one copy); positions are 0-based.
+//
+//	dup i j   entry i replaced by a copy of entry j
+//	swap i j  entries i and j change places
+//	dd i j    entry i dropped, a copy of entry j appended
+//	copy j    a copy of entry j appended
+//
+// n = length of the list; the edit itself is done by the callbacks (set(i, copy of j), swap(i, j), drop(i), app(copy of j)).
+// Returns false when the edit does not apply (position out of range, i == j).
+func listEdit(how string, args []string, n int, set func(i, j int), swap func(i, j int), drop func(i int), app func(j int)) bool {
+	var a []int
+	for _, x := range args {
+		v, err := strconv.Atoi(x)
+		if err != nil || v < 0 || v >= n {
+			return false
+		}
+		a = append(a, v)
+	}
+	switch how {
+	case "dup":
+		if len(a) != 2 || a[0] == a[1] {
+			return false
+		}
+		set(a[0], a[1])
+	case "swap":
+		if len(a) != 2 || a[0] == a[1] {
+			return false
+		}
+		swap(a[0], a[1])
+	case "dd":
+		if len(a) != 2 || a[0] == a[1] {
+			return false
+		}
+		// the copy is taken before the drop moves the positions
+		app(a[1])
+		drop(a[0])
+	case "copy":
+		if len(a) != 1 {
+			return false
+		}
+		app(a[0])
+	default:
+		return false
+	}
+	return true
+}
+
+// twoIdx: the two position arguments i j of a token-side / event mutation (both below n, different).
+func twoIdx(args []string, n int) (int, int, bool) {
+	if len(args) != 2 {
+		return 0, 0, false
+	}
+	i, e1 := strconv.Atoi(args[0])
+	j, e2 := strconv.Atoi(args[1])
+	return i, j, e1 == nil && e2 == nil && i >= 0 && j >= 0 && i < n && j < n && i != j
+}
+
+// transientIdx: position of the transient write-set entry `key` (-1 = none).
+func transientIdx(tx *pb.Transaction, key string) int {
+	for j, o := range tx.TxOutputsExt {
+		if o.Bucket == xmodel.TransientBucket && string(o.Key) == key {
+			return j
+		}
+	}
+	return -1
+}
+
 // mutate applies one mutation class to a copy of the pending transaction. Returns (nil, "n/a") when the
 // class does not apply. `expect`: "reject" | "accept" | "" (the property does not fix the verdict by itself:
 // it depends on what re-executing over the declared reads produces; decided by the model).
@@ -1108,6 +1175,135 @@ func (e *Exec) mutate(p *Pending, class string, args []string) (tx *pb.Transacti
 		tx.ContractRequests = nil
 		tx.TxInputsExt = nil
 		tx.TxOutputsExt = keep
+		expect = "reject"
+	case "wdup", "wswap", "wdd", "wcopy":
+		// multiset mutations of the declared write set: the list TxOutputsExt itself, positions counting the transient
+		// entries (ContractUtxo.Inputs / ContractUtxo.Outputs / contractEvent) too. A list in which an entry stands twice
+		// is the write set of no execution; the same entries in another order are the same write set.
+		ext := tx.TxOutputsExt
+		cp := func(j int) *protos.TxOutputExt { return proto.Clone(ext[j]).(*protos.TxOutputExt) }
+		var extra []*protos.TxOutputExt
+		dropped := -1
+		ok := listEdit(class[1:], args, len(ext),
+			func(i, j int) { ext[i] = cp(j) },
+			func(i, j int) { ext[i], ext[j] = ext[j], ext[i] },
+			func(i int) { dropped = i },
+			func(j int) { extra = append(extra, cp(j)) })
+		if !ok {
+			return nil, "n/a"
+		}
+		if dropped >= 0 {
+			ext = append(ext[:dropped:dropped], ext[dropped+1:]...)
+		}
+		tx.TxOutputsExt = append(ext, extra...)
+		if class == "wswap" {
+			expect = "accept"
+		} else {
+			expect = "reject"
+		}
+	case "rdup", "rswap", "rdd", "rcopy":
+		// the same edits of the declared read set (positions in TxInputsExt): every declared version stays current; a
+		// written key whose read is gone must be refused, otherwise the re-execution over the remaining reads decides
+		ext := tx.TxInputsExt
+		cp := func(j int) *protos.TxInputExt { return proto.Clone(ext[j]).(*protos.TxInputExt) }
+		var extra []*protos.TxInputExt
+		dropped := -1
+		gone := -1 // position of the read that is no longer declared
+		ok := listEdit(class[1:], args, len(ext),
+			func(i, j int) { gone = i; ext[i] = cp(j) },
+			func(i, j int) { ext[i], ext[j] = ext[j], ext[i] },
+			func(i int) { dropped, gone = i, i },
+			func(j int) { extra = append(extra, cp(j)) })
+		if !ok {
+			return nil, "n/a"
+		}
+		if gone >= 0 {
+			g := p.Tx.TxInputsExt[gone]
+			if findRW(p.W, bucketNo[g.Bucket], keyNo(g.Key)) >= 0 {
+				expect = "reject"
+			}
+		}
+		if dropped >= 0 {
+			ext = append(ext[:dropped:dropped], ext[dropped+1:]...)
+		}
+		tx.TxInputsExt = append(ext, extra...)
+	case "xdup", "xdupb":
+		// declared contract output i replaced by a copy of declared contract output j (xdupb: the real output alike):
+		// not what re-executing the request produces
+		dOut, err := xmodel.ParseContractUtxoOutputs(tx)
+		if err != nil {
+			return nil, "n/a"
+		}
+		n := len(dOut)
+		if p.NConOut < n {
+			n = p.NConOut
+		}
+		i, j, ok := twoIdx(args, n)
+		if !ok || proto.Equal(dOut[i], dOut[j]) {
+			return nil, "n/a"
+		}
+		dOut[i] = proto.Clone(dOut[j]).(*protos.TxOutput)
+		if class == "xdupb" {
+			tx.TxOutputs[i] = proto.Clone(tx.TxOutputs[j]).(*protos.TxOutput)
+		}
+		if !setTransient(tx, "ContractUtxo.Outputs", dOut) {
+			return nil, "n/a"
+		}
+		expect = "reject"
+	case "idup":
+		// declared contract input i replaced by a copy of declared contract input j; the real input that spent it is
+		// replaced by outputs of the initiator (so that no signature is missing): decided by the re-execution over the
+		// declared inputs
+		dIn, perr := xmodel.ParseContractUtxoInputs(tx)
+		if perr != nil {
+			return nil, "n/a"
+		}
+		n := len(dIn)
+		if p.NConIn < n {
+			n = p.NConIn
+		}
+		i, j, ok := twoIdx(args, n)
+		if !ok {
+			return nil, "n/a"
+		}
+		need := new(big.Int).SetBytes(tx.TxInputs[i].Amount)
+		ins, _, total, err := w.n.S.SelectUtxos(w.users[0].Address, need, true, false)
+		if err != nil {
+			return nil, "n/a"
+		}
+		dIn[i] = proto.Clone(dIn[j]).(*protos.TxInput)
+		tx.TxInputs = append(append(tx.TxInputs[:i:i], tx.TxInputs[i+1:]...), ins...)
+		if chg := new(big.Int).Sub(total, need); chg.Sign() > 0 {
+			tx.TxOutputs = append(tx.TxOutputs, &protos.TxOutput{ToAddr: []byte(w.users[0].Address), Amount: chg.Bytes()})
+		}
+		if !setTransient(tx, "ContractUtxo.Inputs", dIn) {
+			return nil, "n/a"
+		}
+	case "evdup", "evswap":
+		// declared events: one replaced by a copy of another / two swapped (the order of events is part of what the
+		// re-execution produces)
+		ti := transientIdx(tx, "contractEvent")
+		if ti < 0 {
+			return nil, "n/a"
+		}
+		var evs []*protos.ContractEvent
+		if err := xmodel.UnmsarshalMessages(tx.TxOutputsExt[ti].Value, &evs); err != nil {
+			return nil, "n/a"
+		}
+		i, j, ok := twoIdx(args, len(evs))
+		if !ok || proto.Equal(evs[i], evs[j]) {
+			return nil, "n/a"
+		}
+		if class == "evdup" {
+			evs[i] = proto.Clone(evs[j]).(*protos.ContractEvent)
+		} else {
+			evs[i], evs[j] = evs[j], evs[i]
+		}
+		buf, err := xmodel.MarshalMessages(evs)
+		if err != nil {
+			return nil, "n/a"
+		}
+		tx.TxOutputsExt[ti].Value = buf
 		expect = "reject"
 	case "same": // the unmodified transaction (control)
 		if p.Outcome == "ok" {
@@ -1464,7 +1660,8 @@ func (e *Exec) mut(p *Pending, class string, args []string) string {
 		cb := observe(c, w)
 		if derr := c.S.DoTx(cloneTx(tx)); derr == nil {
 			verdict = "accept"
-			if class == "same" || class == "wperm" || class == "radd" || class == "iswap" {
+			if class == "same" || class == "wperm" || class == "radd" || class == "iswap" || class == "wswap" || class == "rswap" ||
+				class == "rcopy" || class == "rdup" || class == "rdd" {
 				e.checkDelta(p, tx, cb, observe(c, w), "mutant "+class)
 			}
 		} else if ca := observe(c, w); ca.String() != cb.String() {
